@@ -65,7 +65,7 @@ func refundHeightStream(r *hx.Rng, run func(string) string, n int, st *genStats)
 		if r.Chance(1, 3) {
 			now = uint64(r.Intn(200000))
 		}
-		typ := r.Pick(0, 0, 0, 1, 1, 2)
+		typ := r.Pick(0, 0, 0, 1, 1)
 		k := r.Intn(6)
 		ds := make([]string, 0)
 		for j := 0; j < k; j++ {
